@@ -10,6 +10,7 @@ mod orders;
 mod gctrace;
 mod rng;
 mod pathnorm;
+mod prog;
 
 fn main() {
     let args: Vec<String> = std::env::args().collect();
@@ -21,6 +22,7 @@ fn main() {
         "pathnorm" => pathnorm::main(&rest),
         "gcreplay" => gcreplay::main(&rest),
         "gctrace" => gctrace::main(&rest),
+        "prog" => prog::main(&rest),
         "modules" => modules::main(&rest),
         "orders" => orders::main(&rest),
         "gcmiri" => gcmiri::main(&rest),
